@@ -92,6 +92,17 @@ pub fn fit_c<F: Float>(
     res
 }
 
+/// The dual of nu-classification has a feasible point only if `nu * n / 2` does not exceed the size
+/// of the smaller class: each class has to carry the sum `nu * n / 2` with coefficients in `[0, 1]`
+fn check_nu_feasible<F: Float>(targets: &[bool], nu: F) -> Result<()> {
+    let npos = targets.iter().filter(|x| **x).count();
+    let nneg = targets.len() - npos;
+    if nu * F::cast(targets.len()) / F::cast(2.0) > F::cast(usize::min(npos, nneg)) {
+        return Err(SvmError::InvalidNu(nu.to_f32().unwrap()));
+    }
+    Ok(())
+}
+
 /// Support Vector Classification with Nu-penalizing term
 ///
 /// This methods solves a binary SVC problem with a penalizing parameter nu between (0, 1). The
@@ -233,13 +244,16 @@ macro_rules! impl_classification {
                         c_p,
                         c_n,
                     ),
-                    (None, Some((nu, _))) => fit_nu(
-                        self.solver_params().clone(),
-                        dataset.records().view(),
-                        kernel,
-                        target,
-                        nu,
-                    ),
+                    (None, Some((nu, _))) => {
+                        check_nu_feasible(target, nu)?;
+                        fit_nu(
+                            self.solver_params().clone(),
+                            dataset.records().view(),
+                            kernel,
+                            target,
+                            nu,
+                        )
+                    }
                     _ => panic!("Set either C value or Nu value"),
                 };
 
@@ -265,13 +279,16 @@ macro_rules! impl_classification {
                         c_p,
                         c_n,
                     ),
-                    (None, Some((nu, _))) => fit_nu(
-                        self.solver_params().clone(),
-                        dataset.records().view(),
-                        kernel,
-                        target,
-                        nu,
-                    ),
+                    (None, Some((nu, _))) => {
+                        check_nu_feasible(target, nu)?;
+                        fit_nu(
+                            self.solver_params().clone(),
+                            dataset.records().view(),
+                            kernel,
+                            target,
+                            nu,
+                        )
+                    }
                     _ => panic!("Set either C value or Nu value"),
                 };
 
